@@ -54,8 +54,52 @@ func (p *Prefixed) Run(cfg *RunCfg) {
 	distinct := DistinctSet{}
 	for i := 0; i < cfg.N; i++ {
 		gz.ResetTab()
-		mode := r.Intn(20)
+		mode := r.Intn(22)
 		switch {
+		case mode >= 20: // Packs and Unpacks of ONE instance under a forced interleaving
+			st.Count("mode:cross")
+			socket.SetMessageSizeLimit(BigLim)
+			spec := &XSpec{Name: p.Name, PF: p.PF}
+			var all []byte
+			for j, k := 0, 1+r.Intn(3); j < k; j++ {
+				g := GenMessage(r, st, p.Profile)
+				if len(g.Body) > 5000 {
+					g.Body = g.Body[:5000]
+				}
+				out, res, _, _ := PackOne(p.PF, g, GenIds(r, false))
+				if res != "ok" {
+					continue
+				}
+				if fr, end, _ := DecodeStream(p.PF, [][]byte{append([]byte(nil), out...)}); len(fr) != 1 || end != "sok" {
+					continue
+				}
+				spec.Frames = append(spec.Frames, out)
+				all = append(all, out...)
+			}
+			for j, k := 0, 1+r.Intn(3); j < k; j++ {
+				og := GenMessage(r, st, p.Profile)
+				if len(og.Body) > 2000 {
+					og.Body = og.Body[:2000]
+				}
+				oids := GenIds(r, false)
+				spec.Out = append(spec.Out, func() socket.Message { return og.NewMessage(oids) })
+			}
+			x, _ := spec.Run(r, st, i)
+			obs := VL(VL(), "sfail")
+			if x.OK {
+				var fr []string
+				end := "sok"
+				for _, o := range x.Unp {
+					if o == "sfail" {
+						end = "sfail"
+						break
+					}
+					fr = append(fr, o)
+				}
+				obs = VL(VL(fr...), end)
+			}
+			w.Add(VL(VS("stream"), VN(BigLim), gz.TabVal(), VB(all)), obs)
+			distinct.Add(Clip(fmt.Sprintf("%s cross bytes=%x %s", p.Name, all, x.Sched)))
 		case mode < 10: // pack + unpack through three chunkings
 			st.Count("mode:pack")
 			g := GenMessage(r, st, p.Profile)
